@@ -107,6 +107,27 @@ CHECKS.update({
     ref="DESIGN.md §4 C07, §3.1"),
 })
 NOT_YET = {}
+# what was added to each check after its first version (appended to the level text)
+ADDENDA = {
+ "C01": "Empty repetitions before or between valued ones are part of the canonical domain.",
+ "C02": "The emitted text is read back by parse_segment and, for every MSH case and every seventh other, by Segment(name).value = text.",
+ "C03": "Inputs also carry the same unlisted segment name at several places (inside open groups), empty first / middle repetitions, and a variant written with the delimiters ! $ @ * ?.",
+ "C04": "Further mutations: a foreign / Z segment or an unknown field added and removed again, a field with a bounded maximum above one at and above its maximum; every such field of every version in a segment validated on its own; components of fields of complex datatypes (missing / limit); group rows are matched to structure nodes by descent; the verdict must not depend on what was validated before (the same observations in two orders of the versions, in one process).",
+ "C05": "Objects built at the other level carry an overridden datatype (same text) so that letting one in shows in validate(); every history of HandlesMC (kept traversal handles x assigning x attaching six ways x writing through handles) is executed at both levels and judged against Handles!Step; about 520 single calls per version (constructors x names x datatype overrides x values, fields beyond the defined ones, objects built elsewhere assigned six ways, whole child lists) are made at both levels.",
+ "C06": "Classes are paired with the delimiter family of the version that uses them (six delimiters from 2.7 on, also without the optional truncation character).",
+ "C08": "Every third instance is also parsed with content in the segments and the delimiters ! $ @ * ?.",
+ "C09": "The model has the operation Adopt (p.children = q.children); the quick tier uses another version than the default one for two of the three concretisations.",
+ "C10": "Step and view verdicts are independent (a wrong state does not hide a sharing); the probes of atomic.py (moves of attached children to parents of another level / version six ways, assignments below absent children, whole-value and child-list assignments) are judged for consistency of every (lister, listed child) pair.",
+ "C11": "Open-ended segments QPD and ZIN (reads of fields beyond the defined ones), the encoding with trailing children, and the same-write law: one text written through a chain that does not exist yet, through a chain whose last element is missing and through a chain built beforehand leaves the same elements and encoding, with default and custom delimiters.",
+ "C12": "atomic.py probes: whole-value / child-list assignment, datatype change, invalid leaves, absent / foreign children, an attached child handed six ways to a parent of another level or version, a refused element assigned below a child that does not exist yet; the projection carries the parent pointers.",
+ "C13": "The generator also replaces a digit of a slot by a blank or a letter; for NM a sign in front of a text must not change its acceptance.",
+ "C14": "Creation through add_field / add_component / add_subcomponent by every spelling.",
+ "C15": "The header model refuses blank encoding characters (as the code does since 2088a40).",
+ "C16": "Handlers are also registered with constructor arguments (the replies carry them); every third loopback round makes the handlers' invocations overlap through a barrier.",
+ "C18": "The parent of the edited child itself comes into being by add_*, by traversal, by parse_message(..., message_profile=) (last repetition of every repeatable group on the way) and by ER7 assignment to its own parent; profile component tables are applied to the field-level comparison.",
+ "C19": "First use: one fresh interpreter per observation - the first two calls of a version forced through 'A runs p steps, B runs completely, A finishes' and mirrored, and two threads first-using a version at the same time with delays 0-300 ms.",
+}
+
 def main():
     props = [json.loads(l) for l in open(os.path.join(HERE, "properties.jsonl"))]
     checks = []
@@ -122,7 +143,7 @@ def main():
                 "evidence_file": "/verif/evidence/%s.json" % pid,
                 "replay_cmd_template": "./check %s --replay {path}" % pid,
                 "engine": "tlc",
-                "level_claimed": {"category": "model_checking", "text": c["text"], "design_ref": c["ref"]},
+                "level_claimed": {"category": "model_checking", "text": (c["text"] + " " + ADDENDA.get(pid, "")).strip(), "design_ref": c["ref"]},
                 "level_note": c["note"],
                 "technique": c["technique"],
             })
